@@ -7,6 +7,8 @@ assigned on the way are understood. Loop bodies are treated per iteration (condi
 Expressions of the table's row type are canonicalised to `ROW` whichever way the row is addressed (`consts[i]`, `*entry`, `entry->`)."""
 
 CASTS = ("ImplicitCastExpr", "ParenExpr", "CStyleCastExpr", "ConstantExpr")
+_CX = [None]
+_DEPTH = [0]
 
 
 def strip(n):
@@ -51,6 +53,14 @@ def expr(n, env):
             return env[nm]
         if is_row_type(n.get("type")) and n["ref"]["kind"] in ("VarDecl", "ParmVarDecl"):
             return "ROW"
+        cx = _CX[0]
+        if cx is not None and n["ref"]["kind"] == "VarDecl" and nm in cx.vars[-1] and _DEPTH[0] < 6:
+            init, ienv = cx.vars[-1][nm]          # a local initialised once and not reassigned stands for its initialiser
+            _DEPTH[0] += 1
+            try:
+                return expr(init, ienv)
+            finally:
+                _DEPTH[0] -= 1
         return nm
     if k == "ArraySubscriptExpr":
         if is_row_type(n.get("type")):
@@ -226,8 +236,12 @@ def outcomes(c_ast, fn_name):
     if fd is None:
         return None
     res = []
-    for (c, val) in outcomes_of(cx, fd, {}):
-        if val is None:
-            continue
-        res.append((c, expr(val, {}), int_of(val), val.get("line")))
+    _CX[0] = cx
+    try:
+        for (c, val) in outcomes_of(cx, fd, {}):
+            if val is None:
+                continue
+            res.append((c, expr(val, {}), int_of(val), val.get("line")))
+    finally:
+        _CX[0] = None
     return res
